@@ -195,7 +195,8 @@ def rule_a(ctx: Ctx, env: EnvA, family: str):
         frames = [f for f in sl.frames_of("get_action_mask") if isinstance(f.ret, vg.S) and f.ret.id in ids]
         if not frames:
             raise AnalysisError(f"{env.name}.{meth}: stored action_mask is not produced by a resolved get_action_mask call")
-        fr = min(frames, key=lambda f: f.depth)
+        exact = [f for f in frames if f.ret is am]
+        fr = exact[0] if exact else min(frames, key=lambda f: f.depth)
         for f in frames:
             ctx.fn(f.func)
         stale, seen = [], set()
@@ -230,6 +231,11 @@ def rule_c(ctx: Ctx, env: EnvA):
         ctx.ob("C01.c", inst, not miss, sl.where,
                f"new '{key}' depends on {sorted(have)}" + (f"; missing {sorted(miss)}" if miss else ""),
                construct=f"{sl.fi.qualname}:{key}:missing-dep:{','.join(sorted(miss))}")
+    monotone(ctx, env, "C01.c")
+
+
+def monotone(ctx: Ctx, env: EnvA, rid: str):
+    sl = env.slot("_step")
     for key, direction in T.MONOTONE.get(env.name, {}).items():
         val = sl.cell(key)
         if val is None:
@@ -243,7 +249,7 @@ def rule_c(ctx: Ctx, env: EnvA):
         else:
             ok = bool(old) and all(l.sign > 0 and l.conj for l in old) and any(l.sign < 0 and l.conj for l in sel) and all(l.sign < 0 for l in sel)
             want = f"{key}' = {key} & ~onehot(action)"
-        ctx.ob("C01.c", f"{env.name}._step:{key}:monotone-{direction}", ok, sl.where,
+        ctx.ob(rid, f"{env.name}._step:{key}:monotone-{direction}", ok, sl.where,
                f"expected {want}; found literals {[('+' if l.sign > 0 else '-') + vg.show(l.node, 2) for l in leaves][:6]}",
                construct=f"{sl.fi.qualname}:{key}:monotone-{direction}")
 
